@@ -718,7 +718,26 @@ def LCOK (P : VC → Prop) (c : LeafC) : Prop := ∀ vc, c = .ver vc → P vc
 /-- error classes of leaf construction and re-parsing -/
 def MErr (e : PyErr) : Prop := e = .syntax ∨ e = .value ∨ e = .unmodelled
 
-variable {P : VC → Prop}
+/-- the same class with lark's error switched on or off (`sb = false`: `ValueError` / `.unmodelled` only) -/
+def MErrS (sb : Bool) (e : PyErr) : Prop := (sb = true ∧ e = .syntax) ∨ e = .value ∨ e = .unmodelled
+
+theorem MErrS.toMErr {sb : Bool} {e : PyErr} (h : MErrS sb e) : MErr e := by
+  rcases h with ⟨_, h⟩ | h | h
+  · exact .inl h
+  · exact .inr (.inl h)
+  · exact .inr (.inr h)
+
+theorem Res.weaken {E E' : PyErr → Prop} {α : Type} {Q : α → Prop} {x : PyM α} (hE : ∀ e, E e → E' e)
+    (h : Res E Q x) : Res E' Q x := by
+  cases x with
+  | ok a => exact h
+  | error e =>
+    rcases h with h | h | h
+    · exact .inl h
+    · exact .inr (.inl h)
+    · exact .inr (.inr (hE e h))
+
+variable {P : VC → Prop} {sb : Bool}
 
 theorem lcok_ver {u : VC} (h : P u) : LCOK P (.ver u) := by intro vc hvc; cases hvc; exact h
 theorem lcok_gen (g : Generic.GC) : LCOK P (.gen g) := by intro vc hvc; cases hvc
@@ -793,7 +812,7 @@ theorem parseByKind_ok (hP : VCOpsTotal P) (k : LeafKind) (s : String) (c : Leaf
       subst h
       exact ⟨lcok_gen g, fun ⟨b, hb⟩ => by cases hb⟩
 
-theorem MErr.ofLeaf {e : PyErr} (h : LeafErr e) : BlockErr MErr e := by
+theorem MErr.ofLeaf {sb : Bool} {e : PyErr} (h : LeafErr e) : BlockErr (MErrS sb) e := by
   rcases h with h | h
   · exact .inr (.inr (.inr (.inl h)))
   · exact .inr (.inr (.inr (.inr h)))
@@ -801,7 +820,7 @@ theorem MErr.ofLeaf {e : PyErr} (h : LeafErr e) : BlockErr MErr e := by
 /-- `SingleMarker(name, constraint_string)`: fails with `ValueError`/`.unmodelled`, or returns a leaf
 satisfying the invariant -/
 theorem mkSingle_res (hvc : VCErrDocumented) (hP : VCOpsTotal P) (name cstr : String) (sw : Bool) :
-    Res MErr (fun s => M.Good (LeafOK P) (.leaf (.single s))) (mkSingle name cstr sw) := by
+    Res (MErrS sb) (fun s => M.Good (LeafOK P) (.leaf (.single s))) (mkSingle name cstr sw) := by
   cases h : mkSingle name cstr sw with
   | error e => exact MErr.ofLeaf (mkSingle_leafErr hvc _ _ _ _ h)
   | ok s =>
@@ -821,7 +840,7 @@ theorem mkSingle_res (hvc : VCErrDocumented) (hP : VCOpsTotal P) (name cstr : St
       exact h1 vc hvc'
 
 theorem mkSingleOfC_res (hvc : VCErrDocumented) (hP : VCOpsTotal P) (name : String) (c : LeafC)
-    (hc : LCOK P c) : Res MErr (fun s => M.Good (LeafOK P) (.leaf (.single s))) (mkSingleOfC name c) := by
+    (hc : LCOK P c) : Res (MErrS sb) (fun s => M.Good (LeafOK P) (.leaf (.single s))) (mkSingleOfC name c) := by
   unfold mkSingleOfC
   refine Res.bind (Q := fun _ => True) ?_ (fun t _ => mkSingle_res hvc hP _ _ _)
   cases c with
@@ -832,18 +851,18 @@ theorem mkSingleOfC_res (hvc : VCErrDocumented) (hP : VCOpsTotal P) (name : Stri
   | gen g => exact Res.ok trivial
 
 theorem parseItemMarker_res (hvc : VCErrDocumented) (hP : VCOpsTotal P) (text : String) :
-    Res MErr (M.Good (LeafOK P)) (parseItemMarker text) := by
+    Res (MErrS true) (M.Good (LeafOK P)) (parseItemMarker text) := by
   unfold parseItemMarker
   split
   · rename_i e hp
     rw [parseText_err _ _ hp]
-    exact .inr (.inr (.inl rfl))
+    exact .inr (.inr (.inl ⟨rfl, rfl⟩))
   · exact Res.bind (mkSingle_res hvc hP _ _ _) (fun s hs => Res.pure hs)
   · exact .inr (.inr (.inr (.inr rfl)))
 
-theorem gpcLeaf_res (hvc : VCErrDocumented) (hP : VCOpsTotal P) (l : Leaf) : Res MErr P (gpcLeaf l) := by
+theorem gpcLeaf_res (hvc : VCErrDocumented) (hP : VCOpsTotal P) (l : Leaf) : Res (MErrS sb) P (gpcLeaf l) := by
   have key : ∀ (disj : List (List (String × String))),
-      Res MErr P (normalizePyMarkers disj >>= fun txt => VParser.parseMarkerVersionConstraint txt) := by
+      Res (MErrS sb) P (normalizePyMarkers disj >>= fun txt => VParser.parseMarkerVersionConstraint txt) := by
     intro disj
     refine Res.bind (Q := fun _ => True) ?_ (fun txt _ => ?_)
     · cases h : normalizePyMarkers disj with
@@ -858,22 +877,22 @@ theorem gpcLeaf_res (hvc : VCErrDocumented) (hP : VCOpsTotal P) (l : Leaf) : Res
   · split <;> exact key _
 
 theorem vc_intersect_res (hP : VCOpsTotal P) {a b : VC} (ha : P a) (hb : P b) :
-    Res MErr P (a.intersect b) := by
+    Res (MErrS sb) P (a.intersect b) := by
   obtain ⟨r, hr, hpr⟩ := hP.inter a b ha hb
   rw [hr]; exact Res.ok hpr
 
 theorem vc_union_res (hP : VCOpsTotal P) {a b : VC} (ha : P a) (hb : P b) :
-    Res MErr P (a.unionWith b) := by
+    Res (MErrS sb) P (a.unionWith b) := by
   obtain ⟨r, hr, hpr⟩ := hP.unionWith a b ha hb
   rw [hr]; exact Res.ok hpr
 
 theorem vc_isSimple_res (hP : VCOpsTotal P) {c : VC} (hc : P c) :
-    Res MErr (fun _ => True) c.isSimple := by
+    Res (MErrS sb) (fun _ => True) c.isSimple := by
   obtain ⟨b, hb⟩ := hP.isSimple c hc
   rw [hb]; exact Res.ok trivial
 
 theorem leafC_intersect_res (hP : VCOpsTotal P) {c1 c2 : LeafC} (hk : SameKind c1 c2)
-    (h1 : LCOK P c1) (h2 : LCOK P c2) : Res MErr (LCOK P) (c1.intersect c2) := by
+    (h1 : LCOK P c1) (h2 : LCOK P c2) : Res (MErrS sb) (LCOK P) (c1.intersect c2) := by
   rcases hk with ⟨a, b, rfl, rfl⟩ | ⟨a, b, rfl, rfl⟩
   · obtain ⟨r, hr, hpr⟩ := hP.inter a b (h1 a rfl) (h2 b rfl)
     simp only [LeafC.intersect, hr, Except.map]
@@ -884,7 +903,7 @@ theorem leafC_intersect_res (hP : VCOpsTotal P) {c1 c2 : LeafC} (hk : SameKind c
     | ok r => exact Res.ok (lcok_gen r)
 
 theorem leafC_union_res (hP : VCOpsTotal P) {c1 c2 : LeafC} (hk : SameKind c1 c2)
-    (h1 : LCOK P c1) (h2 : LCOK P c2) : Res MErr (LCOK P) (c1.union c2) := by
+    (h1 : LCOK P c1) (h2 : LCOK P c2) : Res (MErrS sb) (LCOK P) (c1.union c2) := by
   rcases hk with ⟨a, b, rfl, rfl⟩ | ⟨a, b, rfl, rfl⟩
   · obtain ⟨r, hr, hpr⟩ := hP.unionWith a b (h1 a rfl) (h2 b rfl)
     simp only [LeafC.union, hr, Except.map]
@@ -939,7 +958,11 @@ local macro "hstep" : tactic => `(tactic| first
   | ((with_reducible refine Res.pure ?_); og)
   | with_reducible refine Res.pure_bind_opt (G := LeafOK P) (by og) (fun _ _ => ?_)
   | with_reducible refine Res.pure_bind ?_
-  | with_reducible refine Res.bind (parseItemMarker_res hvc hP _) (fun _ _ => ?_)
+  | (rcases hsb with hsb | hsb <;> first
+      | (subst hsb; with_reducible refine Res.bind (parseItemMarker_res hvc hP _) (fun _ _ => ?_))
+      | (exfalso
+         have hpv : m1.name = "python_version" := by simpa using ‹¬(m1.name != "python_version") = true›
+         rw [hpv] at hsb; exact absurd hsb (by decide)))
   | with_reducible refine Res.bind (gpcLeaf_res hvc hP _) (fun _ _ => ?_)
   | with_reducible refine Res.bind (mkSingleOfC_res hvc hP _ _ (by lcp)) (fun _ _ => ?_)
   | with_reducible refine Res.bind (vc_intersect_res hP (by assumption) (by assumption)) (fun _ _ => ?_)
@@ -956,8 +979,9 @@ theorem mergeSingle_rest_vv (hvc : VCErrDocumented) (hP : VCOpsTotal P) (m1 m2 :
     (h1 : LeafOK P m1) (h2 : LeafOK P m2) (depth : Nat)
     (hp : ¬ ((m1.name == "python_version" && m2.name == "python_full_version") ||
       (m1.name == "python_full_version" && m2.name == "python_version")) = true)
+    (hsb : sb = true ∨ isPyName m1.name = false)
     (a b : VC) (hc1 : m1.c = .ver a) (hc2 : m2.c = .ver b) :
-    Res MErr (OptGood (LeafOK P)) (mergeSingle depth m1 m2 isMulti) := by
+    Res (MErrS sb) (OptGood (LeafOK P)) (mergeSingle depth m1 m2 isMulti) := by
   have hg1 : M.Good (LeafOK P) (.leaf m1) := by simpa using h1
   have hg2 : M.Good (LeafOK P) (.leaf m2) := by simpa using h2
   have ha : P a := h1.2 a hc1
@@ -988,8 +1012,9 @@ theorem mergeSingle_rest_gg (hvc : VCErrDocumented) (hP : VCOpsTotal P) (m1 m2 :
     (h1 : LeafOK P m1) (h2 : LeafOK P m2) (depth : Nat)
     (hp : ¬ ((m1.name == "python_version" && m2.name == "python_full_version") ||
       (m1.name == "python_full_version" && m2.name == "python_version")) = true)
+    (hsb : sb = true ∨ isPyName m1.name = false)
     (a b : Generic.GC) (hc1 : m1.c = .gen a) (hc2 : m2.c = .gen b) :
-    Res MErr (OptGood (LeafOK P)) (mergeSingle depth m1 m2 isMulti) := by
+    Res (MErrS sb) (OptGood (LeafOK P)) (mergeSingle depth m1 m2 isMulti) := by
   have hg1 : M.Good (LeafOK P) (.leaf m1) := by simpa using h1
   have hg2 : M.Good (LeafOK P) (.leaf m2) := by simpa using h2
   have hk : SameKind (LeafC.gen a) (LeafC.gen b) := .inr ⟨_, _, rfl, rfl⟩
@@ -1008,12 +1033,13 @@ theorem mergeSingle_rest_gg (hvc : VCErrDocumented) (hP : VCOpsTotal P) (m1 m2 :
 theorem mergeSingle_rest_res (hvc : VCErrDocumented) (hP : VCOpsTotal P) (m1 m2 : Leaf) (isMulti : Bool)
     (h1 : LeafOK P m1) (h2 : LeafOK P m2) (depth : Nat)
     (hp : ¬ ((m1.name == "python_version" && m2.name == "python_full_version") ||
-      (m1.name == "python_full_version" && m2.name == "python_version")) = true) :
-    Res MErr (OptGood (LeafOK P)) (mergeSingle depth m1 m2 isMulti) := by
+      (m1.name == "python_full_version" && m2.name == "python_version")) = true)
+    (hsb : sb = true ∨ isPyName m1.name = false) :
+    Res (MErrS sb) (OptGood (LeafOK P)) (mergeSingle depth m1 m2 isMulti) := by
   cases hc1 : m1.c with
   | ver a =>
     cases hc2 : m2.c with
-    | ver b => exact mergeSingle_rest_vv hvc hP m1 m2 isMulti h1 h2 depth hp a b hc1 hc2
+    | ver b => exact mergeSingle_rest_vv hvc hP m1 m2 isMulti h1 h2 depth hp hsb a b hc1 hc2
     | gen b =>
       rw [mergeSingle.eq_def]
       simp only
@@ -1023,7 +1049,7 @@ theorem mergeSingle_rest_res (hvc : VCErrDocumented) (hP : VCOpsTotal P) (m1 m2 
       exact Res.ok (by intro r hr; cases hr)
   | gen a =>
     cases hc2 : m2.c with
-    | gen b => exact mergeSingle_rest_gg hvc hP m1 m2 isMulti h1 h2 depth hp a b hc1 hc2
+    | gen b => exact mergeSingle_rest_gg hvc hP m1 m2 isMulti h1 h2 depth hp hsb a b hc1 hc2
     | ver b =>
       rw [mergeSingle.eq_def]
       simp only
@@ -1033,13 +1059,13 @@ theorem mergeSingle_rest_res (hvc : VCErrDocumented) (hP : VCOpsTotal P) (m1 m2 
       exact Res.ok (by intro r hr; cases hr)
 
 theorem mergePythonVersion_res (hvc : VCErrDocumented) (hP : VCOpsTotal P) {d : Nat}
-    (ihd : ∀ l1 l2 b, LeafOK P l1 → LeafOK P l2 → Res MErr (OptGood (LeafOK P)) (mergeSingle d l1 l2 b)) :
+    (ihd : ∀ l1 l2 b, LeafOK P l1 → LeafOK P l2 → Res (MErrS true) (OptGood (LeafOK P)) (mergeSingle d l1 l2 b)) :
     ∀ s1 s2 b, LeafOK P (.single s1) → LeafOK P (.single s2) →
-      Res MErr (OptGood (LeafOK P)) (mergePythonVersion d s1 s2 b) := by
+      Res (MErrS true) (OptGood (LeafOK P)) (mergePythonVersion d s1 s2 b) := by
   intro s1 s2 b h1 h2
   have tail : ∀ (vm fm : Single), LeafOK P (.single vm) → LeafOK P (.single fm) → ∀ (nm : Single),
       M.Good (LeafOK P) (.leaf (.single nm)) → ∀ merged, OptGood (LeafOK P) merged →
-      Res MErr (OptGood (LeafOK P)) (match merged with
+      Res (MErrS true) (OptGood (LeafOK P)) (match merged with
         | none => (Pure.pure none : PyM (Option M))
         | some mm =>
           if M.beq mm (.leaf (.single nm)) then Pure.pure (some (.leaf (.single vm)))
@@ -1089,9 +1115,10 @@ theorem mergePythonVersion_res (hvc : VCErrDocumented) (hP : VCOpsTotal P) {d : 
 
 theorem mergeSingle_res (hvc : VCErrDocumented) (hP : VCOpsTotal P) {depth : Nat}
     (hPV : ∀ d, depth = d + 1 → ∀ s1 s2 b, LeafOK P (.single s1) → LeafOK P (.single s2) →
-      Res MErr (OptGood (LeafOK P)) (mergePythonVersion d s1 s2 b)) :
-    ∀ m1 m2 b, LeafOK P m1 → LeafOK P m2 → Res MErr (OptGood (LeafOK P)) (mergeSingle depth m1 m2 b) := by
-  intro m1 m2 isMulti h1 h2
+      Res (MErrS true) (OptGood (LeafOK P)) (mergePythonVersion d s1 s2 b)) :
+    ∀ m1 m2 b, LeafOK P m1 → LeafOK P m2 → (sb = true ∨ isPyName m1.name = false) →
+      Res (MErrS sb) (OptGood (LeafOK P)) (mergeSingle depth m1 m2 b) := by
+  intro m1 m2 isMulti h1 h2 hsb
   by_cases hp : ((m1.name == "python_version" && m2.name == "python_full_version") ||
       (m1.name == "python_full_version" && m2.name == "python_version")) = true
   · have hn1 : isPyName m1.name = true := by
@@ -1100,27 +1127,40 @@ theorem mergeSingle_res (hvc : VCErrDocumented) (hP : VCOpsTotal P) {depth : Nat
     have hn2 : isPyName m2.name = true := by
       simp only [Bool.or_eq_true, Bool.and_eq_true, beq_iff_eq] at hp
       rcases hp with ⟨_, h⟩ | ⟨_, h⟩ <;> rw [h] <;> decide
-    obtain ⟨s1, _, rfl, _⟩ := h1.1 hn1
-    obtain ⟨s2, _, rfl, _⟩ := h2.1 hn2
-    rw [mergeSingle.eq_def]
-    simp only
-    rw [if_pos hp]
-    cases depth with
-    | zero => exact Res.fuel
-    | succ d => exact hPV d rfl s1 s2 isMulti h1 h2
-  · exact mergeSingle_rest_res hvc hP m1 m2 isMulti h1 h2 depth hp
+    rcases hsb with hsb | hsb
+    · subst hsb
+      obtain ⟨s1, _, rfl, _⟩ := h1.1 hn1
+      obtain ⟨s2, _, rfl, _⟩ := h2.1 hn2
+      rw [mergeSingle.eq_def]
+      simp only
+      rw [if_pos hp]
+      cases depth with
+      | zero => exact Res.fuel
+      | succ d => exact hPV d rfl s1 s2 isMulti h1 h2
+    · rw [hn1] at hsb; cases hsb
+  · exact mergeSingle_rest_res hvc hP m1 m2 isMulti h1 h2 depth hp hsb
+
+/-- the merge with lark's error switched on (`sb = true`: all leaves) or off (`sb = false`: the first leaf is
+not named `python_version` / `python_full_version`, so neither re-parsing step is reached) -/
+theorem mergeLeaves_resS (hvc : VCErrDocumented) (hP : VCOpsTotal P) (l1 l2 : Leaf) (b : Bool)
+    (h1 : LeafOK P l1) (h2 : LeafOK P l2) (hsb : sb = true ∨ isPyName l1.name = false) :
+    Res (MErrS sb) (OptGood (LeafOK P)) (mergeLeaves l1 l2 b) := by
+  unfold mergeLeaves
+  have r0 : ∀ m1 m2 b, LeafOK P m1 → LeafOK P m2 →
+      Res (MErrS true) (OptGood (LeafOK P)) (mergeSingle 0 m1 m2 b) :=
+    fun m1 m2 b h1 h2 => mergeSingle_res hvc hP (fun d hd => by cases hd) m1 m2 b h1 h2 (.inl rfl)
+  have r1 : ∀ m1 m2 b, LeafOK P m1 → LeafOK P m2 →
+      Res (MErrS true) (OptGood (LeafOK P)) (mergeSingle 1 m1 m2 b) :=
+    fun m1 m2 b h1 h2 => mergeSingle_res hvc hP
+      (fun d hd => by cases hd; exact mergePythonVersion_res hvc hP r0) m1 m2 b h1 h2 (.inl rfl)
+  exact mergeSingle_res hvc hP (fun d hd => by cases hd; exact mergePythonVersion_res hvc hP r1) l1 l2 b h1 h2 hsb
 
 /-- **`_merge_single_markers` on leaves satisfying the invariant**: the result satisfies it again; an error is
 fuel (model), lark's error on a re-parsed text, `ValueError` or `.unmodelled` — no `AssertionError`, and no
 error of the version-constraint algebra. -/
-theorem mergeLeaves_res (hvc : VCErrDocumented) (hP : VCOpsTotal P) : MergeRes (LeafOK P) MErr := by
-  intro l1 l2 b h1 h2
-  unfold mergeLeaves
-  have r0 : ∀ m1 m2 b, LeafOK P m1 → LeafOK P m2 → Res MErr (OptGood (LeafOK P)) (mergeSingle 0 m1 m2 b) :=
-    mergeSingle_res hvc hP (fun d hd => by cases hd)
-  have r1 : ∀ m1 m2 b, LeafOK P m1 → LeafOK P m2 → Res MErr (OptGood (LeafOK P)) (mergeSingle 1 m1 m2 b) :=
-    mergeSingle_res hvc hP (fun d hd => by cases hd; exact mergePythonVersion_res hvc hP r0)
-  exact mergeSingle_res hvc hP (fun d hd => by cases hd; exact mergePythonVersion_res hvc hP r1) l1 l2 b h1 h2
+theorem mergeLeaves_res (hvc : VCErrDocumented) (hP : VCOpsTotal P) : MergeRes (LeafOK P) MErr :=
+  fun l1 l2 b h1 h2 => Res.weaken (fun _ h => MErrS.toMErr h)
+    (mergeLeaves_resS (sb := true) hvc hP l1 l2 b h1 h2 (.inl rfl))
 
 /-! ## what `_compact_markers` builds satisfies the invariant -/
 
@@ -1138,7 +1178,7 @@ theorem compactAtom_good (hvc : VCErrDocumented) (hP : VCOpsTotal P) : ∀ (a : 
     obtain ⟨s, hs, h⟩ := bind_ok _ _ _ h
     simp only [pure, Except.pure, Except.ok.injEq] at h
     subst h
-    exact (mkSingle_res hvc hP n _ sw).of_ok hs
+    exact (mkSingle_res (sb := true) hvc hP n _ sw).of_ok hs
   | .paren syn, m, h => by
     unfold compactAtom at h
     obtain ⟨gs, hg, h⟩ := bind_ok _ _ _ h
